@@ -140,13 +140,9 @@ def drange(t0 = None, t1 = None, bump = None):
     if bump is None:
         bump = 1 if t0<t1 else -1
     if is_int(bump):
-        if (t1-t0).days * bump <= 0:
+        if bump == 0:
             raise ValueError('cannot go from %s to %s in steps of %s'%(t0,t1,bump))
-        freq = DAILY
-        res = list(rrule(freq, interval = 1, dtstart = min(t0,t1), until = max(t0,t1))) # unfortunately does not actually work for negative bumps
-        res = res[::-1] if bump<0 else res
-        res = res[::abs(bump)] if abs(bump)>1 else res
-        return res
+        return drange(t0, t1, datetime.timedelta(days = int(bump))) ## n days are timedelta(n): the walk starts at t0 whatever the time of day of the endpoints and whichever way it runs
     elif isinstance(bump, datetime.timedelta):
         t = t0
         res = []
@@ -181,7 +177,8 @@ def drange(t0 = None, t1 = None, bump = None):
                 res = res[::abs(interval)] if abs(interval)>1 else res
                 return res            
             else:
-                return list(rrule(freq, interval = interval, dtstart = t0, until = t1))
+                us = datetime.timedelta(microseconds = t0.microsecond) ## rrule drops the microseconds of its start: take them off, walk, put them back, so that the list starts at t0
+                return [t + us for t in rrule(freq, interval = interval, dtstart = t0 - us, until = t1 - us)]
         else:
             t = t0
             res = []
